@@ -38,7 +38,7 @@ use vq_util::{json, mix, prf_check, prf_fill, Rng, Summary, Value, Violation};
 const IDLE_TIMEOUT: Duration = Duration::from_secs(30);
 const VANISH_SLACK: Duration = Duration::from_secs(5);
 const LIVE_DEADLINE: Duration = Duration::from_secs(180);
-/// wall-clock budget for one simulated scenario (cooperative: checked from the packet monitor)
+/// CPU-time budget for one simulated scenario (cooperative: checked from the packet monitor)
 const WALL_BUDGET_TAG: &str = "VQ_WALL_BUDGET";
 const SIM_DONE_TAG: &str = "VQ_SIM_DONE";
 const SIM_OVERRUN_TAG: &str = "VQ_SIM_OVERRUN";
@@ -245,6 +245,15 @@ fn gen_half(rng: &mut Rng, big_ok: bool, faults_ok: bool) -> HalfPlan {
     h
 }
 
+/// Bound the number of application operations per direction: every tiny write is a packet of
+/// its own and every tiny read makes the receiver emit a control packet, so a 6 MB stream read
+/// 3 bytes at a time is two million control packets at one virtual instant — legal, but it only
+/// measures the simulator. (Tiny operations on small streams stay in the workload.)
+fn bound_ops(own: &mut HalfPlan, peer_write_len: u64) {
+    own.max_read = own.max_read.max((peer_write_len / 20_000 + 1) as usize);
+    own.write_chunk = own.write_chunk.max((own.write_len / 5_000 + 1) as usize);
+}
+
 /// Application think-time must stay far below the 30 s idle timeout: a stream on which no
 /// packet flows for 30 s (e.g. a flow-blocked sender waiting for a reader that sleeps between
 /// 1-byte reads) times out by design — there is no keep-alive — and that is not what C20 is about.
@@ -388,6 +397,8 @@ pub fn gen_sim_scenario(seed: u64, case: u64, only: Option<&str>, heavy_reorder:
             server.pause_us = 0;
         }
         let (cw, sw) = (client.write_len, server.write_len);
+        bound_ops(&mut client, sw);
+        bound_ops(&mut server, cw);
         cap_think_time(&mut client, sw);
         cap_think_time(&mut server, cw);
         streams.push(StreamSpec { start_us: if i == 0 { 0 } else { rng.below(5000) }, client, server });
@@ -447,6 +458,8 @@ pub fn gen_tcp_scenario(seed: u64, case: u64) -> Scenario {
             client.read_stop_at = Some(rng.range(lo, server.write_len - 1));
         }
         let (cw, sw) = (client.write_len, server.write_len);
+        bound_ops(&mut client, sw);
+        bound_ops(&mut server, cw);
         cap_think_time(&mut client, sw);
         cap_think_time(&mut server, cw);
         streams.push(StreamSpec { start_us: 0, client, server });
@@ -489,14 +502,14 @@ pub struct NetCtl {
     index: u64,
     last_delivery_us: BTreeMap<SocketAddr, u64>,
     pub stats: NetStats,
-    wall_start: std::time::Instant,
+    cpu_start: Duration,
     wall_budget: Duration,
 }
 
 impl NetCtl {
     fn new(spec: NetSpec, wall_budget: Duration) -> Self {
         let rng = Rng::new(spec.net_seed);
-        NetCtl { spec, rng, server_ip: None, blackhole: false, server_mute: false, index: 0, last_delivery_us: BTreeMap::new(), stats: NetStats::default(), wall_start: std::time::Instant::now(), wall_budget }
+        NetCtl { spec, rng, server_ip: None, blackhole: false, server_mute: false, index: 0, last_delivery_us: BTreeMap::new(), stats: NetStats::default(), cpu_start: thread_cpu_time(), wall_budget }
     }
 
     /// monitor decision for one sent packet
@@ -504,11 +517,11 @@ impl NetCtl {
         let idx = self.index;
         self.index += 1;
         self.stats.sent += 1;
-        if idx % 512 == 0 && self.wall_start.elapsed() > self.wall_budget {
+        if idx % 512 == 0 && thread_cpu_time().saturating_sub(self.cpu_start) > self.wall_budget {
             // cooperative abort of a simulation that burns wall-clock time (caught by the
             // scenario runner and reported as inconclusive, never as a violation)
             panic!(
-                "{WALL_BUDGET_TAG}: wall budget of {} s exhausted at virtual {} ms after {} packets ({} bytes on the wire, {} duplicated, {} dropped; last packet: {})",
+                "{WALL_BUDGET_TAG}: CPU budget of {} s (this scenario's thread) exhausted at virtual {} ms after {} packets (wire_bytes={} bytes on the wire, {} duplicated, {} dropped; last packet: {})",
                 self.wall_budget.as_secs(),
                 now_us() / 1000,
                 self.stats.sent,
@@ -574,6 +587,19 @@ impl NetCtl {
 }
 
 type SharedNet = Arc<Mutex<NetCtl>>;
+
+/// CPU time consumed by the calling thread: the per-scenario budget must not depend on how
+/// loaded the machine is (16 shards plus other builders share it)
+fn thread_cpu_time() -> Duration {
+    let mut ts = libc::timespec { tv_sec: 0, tv_nsec: 0 };
+    // SAFETY: plain syscall writing into a local
+    let rc = unsafe { libc::clock_gettime(libc::CLOCK_THREAD_CPUTIME_ID, &mut ts) };
+    if rc != 0 {
+        return Duration::ZERO;
+    }
+    Duration::new(ts.tv_sec as u64, ts.tv_nsec as u32)
+}
+
 
 /// one-line description of a dc packet on the simulated wire (replay / --trace only)
 fn describe_packet(p: &Packet) -> String {
@@ -1566,7 +1592,7 @@ fn account(sum: &mut Summary, sc: &Scenario, out: &Outcome, seed: u64, case: u64
     }
 }
 
-static WALL_BUDGET_MS: std::sync::atomic::AtomicU64 = std::sync::atomic::AtomicU64::new(120_000);
+static WALL_BUDGET_MS: std::sync::atomic::AtomicU64 = std::sync::atomic::AtomicU64::new(30_000);
 static TRACE_PACKETS: std::sync::atomic::AtomicBool = std::sync::atomic::AtomicBool::new(false);
 
 /// run one scenario on its own thread (fresh thread-locals for bach and for the crate's
@@ -1588,6 +1614,23 @@ fn account_failure(sum: &mut Summary, sc: &Scenario, msg: String, seed: u64, cas
     sum.count(&format!("{}_scenarios_aborted", sc.transport), 1);
     if msg.contains(WALL_BUDGET_TAG) {
         sum.count("scenarios_over_wall_budget", 1);
+        // A simulation that cannot be advanced because the library emits an unbounded amount of
+        // traffic per unit of virtual time is a livelock, not a slow test: if the bytes on the
+        // wire exceed 30x everything the applications could ever write (+10 MB), report the
+        // retransmission/ACK storm as a violation of "never a hang" (the operations cannot
+        // resolve by any deadline); otherwise the scenario was just too big: inconclusive.
+        let wire: u64 = msg.split("wire_bytes=").nth(1).and_then(|t| t.split(' ').next()).and_then(|v| v.parse().ok()).unwrap_or(0);
+        let intended: u64 = sc.streams.iter().map(|s| s.client.write_len + s.server.write_len + 16).sum();
+        if wire > 30 * intended + 10_000_000 {
+            sum.count("retransmission_storms", 1);
+            known::push_violation(sum, Violation {
+                property: "C20".into(),
+                signature: format!("c20:{}:traffic_storm_no_progress", sc.transport),
+                what: format!("class {}: {wire} bytes on the wire for at most {intended} application bytes and the simulation still cannot reach the deadline: {msg}", sc.class),
+                replay: json!({"check":"c20","seed":seed,"case":case,"scenario":scenario_json(sc)}),
+            }, 3);
+            return;
+        }
         sum.inconclusive.push(format!("c20: {msg} (seed {seed} case {case} class {}); replay with --replay on {}", sc.class, scenario_json(sc)));
         return;
     }
@@ -1672,7 +1715,7 @@ pub fn run(args: &BTreeMap<String, String>, sum: &mut Summary) {
     let only = args.get("class").cloned();
     let verbose = args.contains_key("verbose");
     let heavy_reorder = vq_util::arg_u64(args, "heavy-reorder", 0) == 1;
-    WALL_BUDGET_MS.store(vq_util::arg_u64(args, "scenario-wall-ms", 120_000), std::sync::atomic::Ordering::Relaxed);
+    WALL_BUDGET_MS.store(vq_util::arg_u64(args, "scenario-cpu-ms", vq_util::arg_u64(args, "scenario-wall-ms", 30_000)), std::sync::atomic::Ordering::Relaxed);
     TRACE_PACKETS.store(args.contains_key("trace"), std::sync::atomic::Ordering::Relaxed);
     let kth_flows = vq_util::arg_u64(args, "kth-flows", if only.is_none() { (iters / 25).max(1) } else { 0 });
     if (transport == "udp" || transport == "both") && kth_flows > 0 {
@@ -1710,7 +1753,7 @@ pub fn run(args: &BTreeMap<String, String>, sum: &mut Summary) {
 pub fn replay(r: &Value, sum: &mut Summary) {
     let sc = scenario_from(&r["scenario"]);
     TRACE_PACKETS.store(std::env::args().any(|a| a == "--trace"), std::sync::atomic::Ordering::Relaxed);
-    if let Some(ms) = std::env::args().skip_while(|a| a != "--scenario-wall-ms").nth(1).and_then(|v| v.parse::<u64>().ok()) {
+    if let Some(ms) = std::env::args().skip_while(|a| a != "--scenario-cpu-ms" && a != "--scenario-wall-ms").nth(1).and_then(|v| v.parse::<u64>().ok()) {
         WALL_BUDGET_MS.store(ms, std::sync::atomic::Ordering::Relaxed);
     }
     eprintln!("[c20 replay] {}", scenario_json(&sc));
